@@ -70,7 +70,15 @@ class HTTPConnection(Mapping[str, Any], MoreInfoFromHeaderMixin):
         """
         The full URL of this request.
         """
-        return URL(environ=self._environ)
+        try:
+            url = URL(environ=self._environ)
+            url.port  # urlsplit() checks the port only when it is asked for
+        except ValueError:
+            # bad bracketed host or port in Host, target that is not UTF-8, ...
+            raise HTTPException(
+                400, content="Host header and request target do not form a URL"
+            ) from None
+        return url
 
     @cached_property
     def path_params(self) -> Dict[str, Any]:
